@@ -1278,6 +1278,30 @@ def _unfold_comprehension(st, resolve, owner):
     return out
 
 
+def _split_conditional_assign(st, resolve, owner):
+    """`x = h(a) if c else e` (h a statement helper in an arm of a conditional EXPRESSION) -> `if c: x = h(a)` / `else: x = e`: the
+    same evaluation order, and the helper call becomes a whole statement that can be expanded in place.  Only for one target
+    that is a plain name or an attribute of a plain name (nothing is evaluated for the target before the value)."""
+    if not (isinstance(st, ast.Assign) and len(st.targets) == 1 and isinstance(st.value, ast.IfExp)):
+        return None
+    tg = st.targets[0]
+    if not (isinstance(tg, ast.Name) or (isinstance(tg, ast.Attribute) and isinstance(tg.value, ast.Name))):
+        return None
+    e = st.value
+    arms = [a for a in (e.body, e.orelse) if isinstance(a, ast.Call) and a in _helper_calls(a, resolve, owner)[:1]]
+    if not arms or _helper_calls(e.test, resolve, owner):
+        return None
+    import copy as _copy
+    mk = lambda v: ast.Assign(targets=[_copy.deepcopy(tg)], value=v)
+    new = ast.If(test=e.test, body=[mk(e.body)], orelse=[mk(e.orelse)])
+    for n in ast.walk(new):
+        if not hasattr(n, "lineno"):
+            ast.copy_location(n, st)
+    ast.copy_location(new, st)
+    ast.fix_missing_locations(new)
+    return [new]
+
+
 def _hoist_helper_arg(st, resolve, owner):
     """`X.append(h(a))` / `f(h(a))` / `x = g(h(a))` with h a statement helper -> `_t = h(a)` + the statement using `_t`; only when
     everything evaluated before the helper call is a plain name / constant (evaluation order is kept)"""
@@ -1325,6 +1349,10 @@ def expand_helpers(func, resolve):
             ho = _hoist_helper_arg(st, resolve, func)
             if ho is not None:
                 out.extend(ho)
+                continue
+            sp = _split_conditional_assign(st, resolve, func)
+            if sp is not None:
+                out.extend(prepare(sp))
                 continue
             out.append(st)
         return out
